@@ -20,7 +20,7 @@ META = {
         'were lost); R3 every _export_metadata(rowid, T) passes a sanitized table name T and a rowid that is the rowid column '
         'of T in the query row it was unpacked from; R4 every query the exporter issues is scoped by the one-tuple of the '
         'exported lexicon rowid (C04-R2); R5 export() runs _precheck before building anything and writes through lmf.dump; '
-        'R9 a synset\'s members and an entry\'s senses are drawn per owner from the rank-ordered queries; R8 no comparison in the exporter tests a stored value against a constant (the exported content of an element does not depend on its part of speech, type, ...).'),
+        'R9 a synset\'s members and an entry\'s senses are drawn per owner from the rank-ordered queries; R8 no comparison in the exporter tests a stored value against a constant (the exported content of an element does not depend on its part of speech, type, ...). R10 the exporter\'s output goes through the writer analysis of C02-R5 (values quoted by quoteattr / ElementTree).'),
     'decides': ['exporter key coverage', 'version-guard consistency', 'metadata provenance', 'single-lexicon scoping', 'precheck first',
                 'exporter never switches on stored values', 'declared order of members / senses exported'],
     'not_decided': ['value-level reconstruction (e.g. ili="in" for a proposed ILI without definition)', 'equality of re-imported databases'],
